@@ -101,7 +101,9 @@ func (s Attrs) SerializeValueTo(pc *PrintCtx) {
 	// see gkvp.SerializeValueTo
 	if pc.jsonMode { // the members of a group form a nested object
 		pc.pcAppendByte('{')
+		pc.nested++
 		_ = serializeAttrsSep(pc, slices.Clone(s), false)
+		pc.nested--
 		pc.pcAppendByte('}')
 		return
 	}
@@ -211,7 +213,7 @@ func serializeAttrsSep(pc *PrintCtx, kvps Attrs, leadingSep bool) (err error) { 
 			pc.pcAppendColon()
 		}
 
-		if key == timestampFieldName && prefix == "" { // the record-level name only, not a group member called "time"
+		if key == timestampFieldName && prefix == "" && pc.nested == 0 { // the record-level name only, not a group member called "time"
 			// we format timestamp in according to the setting in flags
 			if z, ok := v.Value().(time.Time); ok {
 				// if pc.jsonMode || pc.noColor {
